@@ -17,6 +17,7 @@ package node
 import (
 	"context"
 	"crypto/sha256"
+	"os"
 	"fmt"
 	"reflect"
 	"strings"
@@ -25,7 +26,13 @@ import (
 	"github.com/pegnet/pegnetd/fat/fat2"
 )
 
-const confAvgN = 9
+// heights explored: 9 in the quick tier, 10 in the thorough tier
+var confAvgN = func() int {
+	if os.Getenv("VERIF_TIER") == "thorough" {
+		return 10
+	}
+	return 9
+}()
 
 func confAvgSetup(t *testing.T, d *Pegnetd, rated uint, bStart int) []uint32 {
 	if _, err := d.Pegnet.DB.Exec(`DELETE FROM pn_rate`); err != nil {
